@@ -43,6 +43,7 @@ from vsc.model.rand_info import RandInfo
 from vsc.model.rand_info_builder import RandInfoBuilder
 from vsc.model.variable_bound_model import VariableBoundModel
 from vsc.visitors.array_constraint_builder import ArrayConstraintBuilder
+from vsc.visitors.array_trim_visitor import ArrayTrimVisitor
 from vsc.visitors.constraint_override_rollback_visitor import ConstraintOverrideRollbackVisitor
 from vsc.visitors.dist_constraint_builder import DistConstraintBuilder
 from vsc.visitors.model_pretty_printer import ModelPrettyPrinter
@@ -546,6 +547,9 @@ class Randomizer(RandIF):
             # which they participate, whether it succeeds or fails
             for f in field_model_l:
                 f.set_used_rand(False, 0)
+                # A call that fails leaves no pre-allocated elements 
+                # behind in random-size lists either
+                f.accept(ArrayTrimVisitor())
     
     @staticmethod
     def _do_randomize(
